@@ -676,6 +676,7 @@ func runC09(c *Ctx) {
 
 	// ---- 2. topoSort ----
 	c09Topo(c)
+	c09Calls(c)
 
 	// ---- 3. formatter monitors ----
 	progSeeds, _ := c08LoadSeeds(c)
